@@ -1,10 +1,107 @@
-META = {"assumptions": ["allocation failure out of scope (--no-malloc-may-fail)"], "outside": []}
-UW = ["vf_real_main.0:8", "vf_build_file.0:9", "vf_getopt.0:9", "memcmp.0:1025", "strcmp.0:4"]
+"""E2UNDO -- protocol harnesses (pattern P) over the REAL main() of misc/e2undo.c, shared by C12, C13 and C06.
+
+The lead wires the HARNESSES entries into C12/C13/C06 spec.py with src="../E2UNDO/<file>.c" (see ENTRIES_FOR at the end).
+"""
+META = {
+    "assumptions": [
+        "allocation failure out of scope (--no-malloc-may-fail)",
+        "command lines are the concrete argv vectors of e2undo_env.h (ARGS=0..10); getopt is a deterministic POSIX getopt (no GNU permutation of operands)",
+        "header.block_size (BSZ) and header.num_keys (NK) are concrete per query; all other header / key-block / key fields, the checksum "
+        "outcomes, the superblocks' compared fields, mount state, s_state and the I/O faults are symbolic",
+        "the undo file and the device are protocol stubs at the io_manager interface (open/read_blk64/write_blk64/set_blksize/close recorded); "
+        "key DATA is represented by the file range the buffer was filled from plus one byte at a symbolic probe position",
+        "ext2fs_crc32c_le returns an arbitrary value per checksummed object and records what it was fed (crc32c itself: C14)",
+        "check_filesystem() is cut in the main() harnesses and verified on its own by undo_checkfs against the same specification",
+        "ext2fs_open2 / ext2fs_close_free / ext2fs_check_if_mounted / set_undo_io_backing_manager / set_undo_io_backup_file are recording stubs",
+        "malloc above 4096 bytes returns an object of symbolic size constrained to equal the request (keeps the real 512-block extent buffer out of the bit-level encoding)",
+    ],
+    "outside": [
+        "undo files with more keys than NK (2; 3 with 48-byte blocks) and more than 2 key blocks; block sizes other than 48 / 1024 / 4096 / 1 MiB",
+        "what unix_io / undo_io do below the recorded manager calls (C17, C12 capture, C13 unix_ro)",
+        "e2undo_setup_tdb's E2FSPROGS_UNDO_DIR branch (-z with an empty name); usage() text; -v output",
+        "I/O errors during a forced (-f) replay are only covered for memory safety and for -n, not for which keys get written",
+    ],
+}
+UW = ["vf_real_main.0:8", "vf_build_file.0:9", "vf_getopt.0:9", "memcmp.0:1025", "strcmp.0:4", "ref_magic_ok.0:9"]
+CUT = {"misc/e2undo.c": ["check_filesystem"]}
+REAL = ["vf_real_main", "key_compare", "io_channel_read_blk64", "io_channel_write_blk64"]
+WRAP = "768614336404564651ULL"     # 24 * WRAP == 2^64 + 8
+T = {"_tier": "thorough"}
+
 HARNESSES = [
-    dict(name="undo_dry", src="undo_dry.c", funcs=["vf_real_main", "check_filesystem", "key_compare", "io_channel_read_blk64"],
-         extra_src=["lib/ext2fs/io_manager.c"],
-         configs=[{"ARGS": 4, "BSZ": 1024, "NK": 2}],
-         unwind=3, unwindset=UW, backends=["default", "kissat"],
-         bound="x"),
+    # ---- C12
+    dict(name="undo_replay", src="undo_replay.c", funcs=REAL + ["e2undo_setup_tdb"], cut_statics=CUT,
+         configs=[{"ARGS": 3, "BSZ": 1024, "NK": 2},            # -z z u dev
+                  {"ARGS": 0, "BSZ": 1024, "NK": 2},            # u dev
+                  {"ARGS": 2, "BSZ": 1024, "NK": 2},            # -f u dev
+                  {"ARGS": 5, "BSZ": 1024, "NK": 2},            # -f -z z u dev
+                  {"ARGS": 6, "BSZ": 1024, "NK": 1},            # -o 4096 u dev
+                  {"ARGS": 0, "BSZ": 1024, "NK": 0},            # empty undo file
+                  {"ARGS": 0, "BSZ": 4096, "NK": 1},
+                  {"ARGS": 2, "BSZ": 48, "NK": 3},              # -f permits tiny blocks: 2 keys per key block -> two key blocks
+                  dict({"ARGS": 0, "BSZ": 1048576, "NK": 2}, **T),
+                  dict({"ARGS": 0, "BSZ": 1024, "NK": 3}, **T)],
+         unwind=7, unwindset=UW, backends=["default", "kissat"], cap_quick=150,
+         bound="well-formed undo file: header + superblock copy + <= 2 key blocks + NK <= 3 keys of 1..512*block_size bytes (all sizes, "
+               "target blocks < 2^31, layout start, fs block size, fs offset, FINISHED flag symbolic); undo block size 1024 (also 48 with -f, "
+               "4096; 1 MiB thorough); command lines: plain, -f, -z, -f -z, -o"),
+    dict(name="undo_refuse", src="undo_refuse.c", funcs=REAL, cut_statics=CUT,
+         configs=[{"ARGS": 0, "BSZ": 1024, "NK": 2},
+                  {"ARGS": 3, "BSZ": 1024, "NK": 1},
+                  {"ARGS": 8, "BSZ": 1024, "NK": 1, "END_AT_EXIT": None},     # -z u u dev
+                  {"ARGS": 9, "BSZ": 1024, "NK": 1, "END_AT_EXIT": None}],    # -h u dev
+         witness_per_config=False,
+         unwind=7, unwindset=UW, backends=["default", "kissat"], cap_quick=150,
+         bound="every damage class of header / superblock copy / key block / key (magic, each checksum outcome, feature words, sizes, mount "
+               "state) symbolic and independent; undo block 1024, NK <= 2 keys; no -f, no -n"),
+    dict(name="undo_checkfs", src="undo_checkfs.c", funcs=["check_filesystem", "print_undo_mismatch", "io_channel_read_blk64"],
+         configs=[{"BSZ": 1024, "DIFFPOS": 1023}, {"BSZ": 4096, "DIFFPOS": 200}],
+         unwind=7, unwindset=UW, backends=["default", "kissat"], cap_quick=150,
+         bound="1024-byte superblocks zero except 6 symbolic fields each + one extra symbolic device byte (position per query); read faults symbolic"),
+    # ---- C13
+    dict(name="undo_dry", src="undo_dry.c", funcs=REAL, cut_statics=CUT,
+         configs=[{"ARGS": 1, "BSZ": 1024, "NK": 2},            # -n u dev
+                  {"ARGS": 4, "BSZ": 1024, "NK": 2},            # -n -f u dev
+                  {"ARGS": 10, "BSZ": 1024, "NK": 1},           # -n -z z u dev
+                  {"ARGS": 7, "BSZ": 1024, "NK": 1},            # -nf -v -z z u dev
+                  {"ARGS": 4, "BSZ": 48, "NK": 3}],
+         unwind=7, unwindset=UW, backends=["default", "kissat"], cap_quick=150,
+         bound="arbitrary undo file (all fields symbolic except block size 1024/48 and key count <= 3), every read / open may fail; "
+               "command lines -n, -n -f, -n -z, -nf -v -z"),
+    # ---- C06
+    dict(name="undo_mem", src="undo_mem.c", funcs=REAL, cut_statics=CUT, checks="memsafe",
+         configs=[{"ARGS": 0, "BSZ": 1024, "NK": 2},
+                  {"ARGS": 2, "BSZ": 1024, "NK": 2},
+                  {"ARGS": 4, "BSZ": 1024, "NK": 2},
+                  {"ARGS": 2, "BSZ": 48, "NK": 3},
+                  {"ARGS": 0, "BSZ": 4096, "NK": 1},
+                  # GENUINE DEFECTS (fail on the unchanged tree; both confirmed with the built /repo/misc/e2undo: SIGSEGV):
+                  {"ARGS": 2, "BSZ": 1024, "NK": 2, "VF_KB0_FAIL": None},      # -f, first key block unreadable: num_keys = i - 1 = SIZE_MAX
+                  {"ARGS": 2, "BSZ": 16, "NK": 1},                             # -f, block_size 16..31: keys_per_block == 0
+                  {"ARGS": 0, "BSZ": 1024, "NK": 1, "NUMKEYS": WRAP}],         # no -f: 24 * num_keys wraps size_t
+         unwind=7, unwindset=UW, backends=["default"], cap_quick=150,
+         bound="arbitrary undo file bytes as seen through the header / key block / key fields (block size and key count concrete per query: "
+               "1024 x 2, 48 x 3, 4096 x 1), the REAL E2UNDO_MAX_EXTENT_BLOCKS = 512, read / write / open faults; standard CBMC checks on"),
 ]
-MANIFEST = {"text": "x", "note": "x"}
+MANIFEST = {
+    "text": "The real main() of misc/e2undo.c is executed symbolically for concrete command lines over a recording model of the undo file, "
+            "the device and the library entry points it uses. Decided: (C13) with -n no path -- refusal, checksum error, I/O error, "
+            "incomplete record, -f -- opens the device read/write, writes to it, or opens the filesystem read/write; (C12) a well-formed "
+            "file is replayed as exactly one write per key at fsblk * fs_block_size (+ offset), with the stored bytes, in ascending order, "
+            "nothing else, the needs-fsck mark exactly for -f / incomplete records and through the undo manager with -z; any damaged "
+            "component leads to exit 1 before the first write; (C06) no read from the undo file exceeds its destination buffer and the "
+            "key array is never over-indexed, for the queried block sizes.",
+    "note": "Trusted: the protocol stubs (e2undo_env.h), the deterministic getopt, the cut of check_filesystem (closed by undo_checkfs), "
+            "CBMC's C semantics. Three undo_mem queries fail on the current tree (genuine defects, see the harness comments).",
+}
+
+def ENTRIES_FOR(prop):
+    """HARNESSES entries to paste into harness/<prop>/spec.py"""
+    sel = {"C12": ("undo_replay", "undo_refuse", "undo_checkfs"), "C13": ("undo_dry", "undo_checkfs"), "C06": ("undo_mem",)}[prop]
+    out = []
+    for h in HARNESSES:
+        if h["name"] in sel:
+            d = dict(h)
+            d["src"] = "../E2UNDO/" + h["src"]
+            out.append(d)
+    return out
